@@ -112,6 +112,9 @@ pub fn gtext(min: usize) -> BoxedStrategy<String> {
             v[n - 1] = last;
             v
         }),
+        // version-like text: runs of digits (leading zeros included) separated by dots, with an optional suffix
+        2 => (proptest::collection::vec(select(&["0", "1", "01", "10", "001", "2", "9", "00", "1000"][..]), 1..=4), select(&["", "", "-rc1", "+b", "a"][..]))
+            .prop_map(|(runs, suffix)| format!("{}{suffix}", runs.join(".")).chars().collect::<Vec<char>>()),
         // ordinary words with a dot, a dash or a digit (file names, versions)
         1 => select(&["v1.2", "main.rs", "lib.so.1", "1.0.0-rc.1+build", "node_modules", "a.b", "x-y", "README.md"][..]).prop_map(|s| s.chars().collect::<Vec<char>>()),
     ]
